@@ -19,7 +19,8 @@ EXPLANATION = (
     'for the winner and 2n for the loser; TBProbe::extendPV applies the same inequality; Search::notifyPV prints mate n / mate -n; the '
     'TT stores a ply-independent value (read at another ply the score is that of the same n); every mate score of the domain is '
     'classified by isWinScore / isLoseScore and fits the 16-bit score field.'
-    ' (2) a score found by searching after a null move leaves negaScout only after it was shown not to be a win score; (3) the check-evasion generator is complete (a node in check without evasions is scored as mate).')
+    ' (2) a score found by searching after a null move leaves negaScout only after it was shown not to be a win score; (3) the check-evasion generator is complete (a node in check without evasions is scored as mate).'
+    ' Added later; (6) every TranspositionTable insert in negaScout is guarded by the flag derived from the singular-move test (unrestricted search).')
 UNDECIDED = ('that a reported mate exists (game-tree semantics); soundness of pruning near mate scores (a rule "every pruning is guarded '
              'by normalBound" would also fire on removing a provably redundant conjunct, i.e. on a behaviour-preserving edit - declined).')
 ASSUMPTIONS = ['domain: mates in 0..60 moves at plies 0..40 (covers every distance an 8-bit tablebase state or a search line can encode)']
@@ -48,6 +49,7 @@ def run(fb, rep, tier):
     from . import C08
     C08.c4_plyshift(fb, rep, clause='C04.5')
     C08.restore_ply_agreement(fb, rep, 'C04.5')
+    c6_no_store_from_restricted_search(fb, rep, 'C04.6')
 
 
 def encoders(fb, rep, clause):
@@ -596,3 +598,80 @@ def c4_bound_types(fb, rep, clause):
         rep.ob(clause, 'K4 bound-type discipline', 'isCutOff: cut-off #%d is granted only to what the entry type proves (EXACT; GE with score >= beta; LE with score <= alpha)' % n_ret,
                not bad, R.site(ic, e), '; '.join(bad) or 'guards: %s' % [('' if s_ else '!') + show(c, 70) for c, s_ in guards], ic.sname)
     rep.floor(clause, 'cut-off grants in TTEntry::isCutOff', n_ret, 3)
+
+
+# ----------------------------------------------------------------------------- .6
+
+def c6_no_store_from_restricted_search(fb, rep, clause):
+    """K4: the singular-extension test searches a node with one move excluded (sti.singularMove).  Whatever it finds - in
+    particular "no legal move: mated" when the excluded move was the only one - is a statement about the restricted move set,
+    not about the position, and must not reach the hash table under the position's key.  negaScout derives one flag for
+    "this is an unrestricted search" from the singular-move test; every store into the table must be guarded by it."""
+    cands = [f for f in fb.funcs.values() if f.has_cfg and f.sname == 'Search::negaScout']
+    if rep.need(clause, cands, 'Search::negaScout') is None:
+        return
+    n = 0
+    n_funcs = 0
+    k_f = {}
+    for f in sorted(cands, key=lambda x: x.name):
+        # the restriction flag: a local initialised from `isEmpty()` of the singular move (or its negation)
+        sing = set()
+        for _, _, e in f.events():
+            if e.get('k') == 'decl':
+                for v in e.get('vars', []):
+                    if any(x.get('k') == 'mem' and (x.get('f') or '').endswith('singularMove') for x in walk(v.get('init') or {})):
+                        sing.add(v['id'])
+        derived = {}
+        changed = True
+        while changed:
+            changed = False
+            for _, _, e in f.events():
+                if e.get('k') == 'decl':
+                    for v in e.get('vars', []):
+                        if v['id'] in sing or v['id'] in derived or v.get('init') is None:
+                            continue
+                        init = _strip4(v['init'])
+                        neg = False
+                        while isinstance(init, dict) and init.get('k') == 'un' and init.get('op') == '!':
+                            neg = not neg
+                            init = _strip4(init.get('e'))
+                        if isinstance(init, dict) and init.get('k') == 'var' and (init.get('id') in sing or init.get('id') in derived):
+                            base_neg = derived.get(init['id'], False) if init['id'] in derived else False
+                            derived[v['id']] = (neg != base_neg)
+                            changed = True
+        # polarity: sing vars are "restricted" when true (singularSearch = !isEmpty()); find how they were defined
+        restricted_true = {}
+        for _, _, e in f.events():
+            if e.get('k') == 'decl':
+                for v in e.get('vars', []):
+                    if v['id'] in sing:
+                        init = _strip4(v['init'])
+                        neg = False
+                        while isinstance(init, dict) and init.get('k') == 'un' and init.get('op') == '!':
+                            neg = not neg
+                            init = _strip4(init.get('e'))
+                        # isEmpty() true = unrestricted; so `!isEmpty()` (neg) = restricted
+                        restricted_true[v['id']] = neg
+        for vid, negated in derived.items():
+            base = next(iter(restricted_true.values()), True)
+            restricted_true[vid] = (base != negated)
+        if not restricted_true:
+            continue            # the uninstantiated template pattern has no body
+        n_funcs += 1
+        for b, i, e in f.events():
+            if not (e.get('k') == 'call' and cname(e).split('::')[-1] == 'insert' and ('TranspositionTable' in cname(e) or 'ClusterTT' in cname(e))):
+                continue
+            n += 1
+            k_f[f.name] = k_f.get(f.name, 0) + 1
+            guards = G.guard_trees(f, set(f.blocks), b)
+            ok = False
+            for c, side in guards:
+                c = _strip4(c)
+                if isinstance(c, dict) and c.get('k') == 'var' and c.get('id') in restricted_true:
+                    # the store happens only when the flag says "unrestricted"
+                    if side != restricted_true[c['id']]:
+                        ok = True
+            rep.ob(clause, 'K4 guard', '%s: hash store #%d happens only in an unrestricted search (not while a move is excluded for the singular test)' % (f.name.replace('Search::', ''), k_f[f.name]),
+                   ok, R.site(f, e), 'guards: %s' % [('' if s_ else '!') + show(c, 40) for c, s_ in guards][-4:], f.sname)
+    rep.floor(clause, 'negaScout instantiations with a singular-search flag', n_funcs, 2)
+    rep.floor(clause, 'hash stores in negaScout', n, 8)
